@@ -40,6 +40,20 @@ func DoTick() {
 	}
 }
 
+// Start, when set, is called at the start of every function literal handed to a worker
+// pool or started as a goroutine in instrumented packages: the simulator decides when a
+// task starts relative to its submitter.
+var Start func()
+
+// DoStart is what instrumented task bodies call first.
+func DoStart() {
+	if Start != nil {
+		Start()
+	} else if Tick != nil {
+		Tick()
+	}
+}
+
 func less(a, b any) bool {
 	switch x := a.(type) {
 	case string:
